@@ -45,7 +45,7 @@ _sims: dict[str, object] = {}
 
 
 def _sim(desc: dict):
-    key = json.dumps({k: desc[k] for k in ("component", "ways", "slots", "ml", "msta", "msto") if k in desc}, sort_keys=True)
+    key = json.dumps({k: desc[k] for k in ("component", "ways", "slots", "ml", "msta", "msto", "callers") if k in desc}, sort_keys=True)
     if key in _sims:
         return _sims[key]
     from transactron.lib.metrics import FIFOLatencyMeasurer, TaggedLatencyMeasurer, WideFIFOLatencyMeasurer
@@ -65,12 +65,50 @@ def _sim(desc: dict):
             return TaggedLatencyMeasurer("v.tagged", slots_number=desc["slots"], max_latency=desc["ml"], ways=desc["ways"])
         raise ValueError(comp)
 
+    def make2():
+        """the real measurer inside a wrapper with TWO callers (own method = own transaction each) of every way of
+        start and of stop"""
+        from amaranth import Elaboratable
+        from transactron import Methods, TModule, def_methods
+
+        meas = make()
+        ways = desc["ways"]
+        la = list(meas.start[0].layout_in.members.items())
+        lo = list(meas.stop[0].layout_in.members.items())
+
+        class TwoCallers(Elaboratable):
+            def __init__(self):
+                self.histogram = meas.histogram
+                self.start = Methods(ways, i=la)
+                self.start2 = Methods(ways, i=la)
+                self.stop = Methods(ways, i=lo)
+                self.stop2 = Methods(ways, i=lo)
+
+            def elaborate(self, platform):
+                m = TModule()
+                m.submodules.meas = meas
+                def define(ms, target):
+                    @def_methods(m, ms)
+                    def _(k, arg):
+                        target[k](m, arg)
+
+                for ms, target in ((self.start, meas.start), (self.start2, meas.start), (self.stop, meas.stop), (self.stop2, meas.stop)):
+                    define(ms, target)
+
+                return m
+
+        return TwoCallers()
+
     try:
-        sim = CompSim(make)
+        sim = CompSim(make2 if desc.get("callers") == 2 else make)
     except Exception as e:  # noqa: BLE001 - an exception of the real code is an observation
         sim = e
     _sims[key] = sim
     return sim
+
+
+def _sfx(desc: dict) -> list[str]:
+    return ["", "2"] if desc.get("callers") == 2 else [""]
 
 
 def _opt_list(tok: str) -> list[Optional[int]]:
@@ -102,27 +140,26 @@ def impl(case: Case) -> list[str]:
         return [f"raise {type(sim).__name__}"] * len(case.lines())
     comp = desc["component"]
     ways = desc["ways"]
+    sfx = _sfx(desc)
+    unit = comp == "FIFOLatencyMeasurer"  # no arguments; the count in the op line is always 1
     ops = []
     for line in case.ops:
         f = _fields(line)
-        a, o = _opt_list(f["a"]), _opt_list(f["o"])
         op = {}
-        for k in range(ways):
-            if comp == "FIFOLatencyMeasurer":  # no arguments; the count in the op line is always 1
-                op[f"start[{k}]"] = None if a[k] is None else 0
-                op[f"stop[{k}]"] = None if o[k] is None else 0
-            else:
-                op[f"start[{k}]"] = a[k]
-                op[f"stop[{k}]"] = o[k]
+        for x in sfx:
+            a, o = _opt_list(f["a" + x]), _opt_list(f["o" + x])
+            for k in range(ways):
+                op[f"start{x}[{k}]"] = (None if a[k] is None else 0) if unit else a[k]
+                op[f"stop{x}[{k}]"] = (None if o[k] is None else 0) if unit else o[k]
         ops.append(op)
     tr = sim.run(ops, extra=_hist_regs)
     out = ["ok"]
     for r in tr:
         e = r["_extra"]
-        out.append(
-            f"a={_lst(r[('start', k)] is not None for k in range(ways))} o={_lst(r[('stop', k)] is not None for k in range(ways))} "
-            f"cnt={e[0]} sum={e[1]} min={e[2]} max={e[3]} b={_lst(e[4:])}"
+        done = " ".join(
+            f"{nm}{x}={_lst(r[(meth + x, k)] is not None for k in range(ways))}" for nm, meth in (("a", "start"), ("o", "stop")) for x in sfx
         )
+        out.append(f"{done} cnt={e[0]} sum={e[1]} min={e[2]} max={e[3]} b={_lst(e[4:])}")
     return out
 
 
@@ -145,46 +182,53 @@ def bucket_of(n: int, x: int) -> int:
 
 def true_latencies(case: Case, out: list[str]):
     """per cycle, the true latencies (stop cycle - start cycle) of the events finished in that cycle, from the executed
-    calls the implementation reported; events matched in FIFO order per way, or by slot"""
+    calls the implementation reported (summed over all callers of a way); events matched in FIFO order per way, or by
+    slot.  Returns (latencies | None when outside the hypotheses, failure of the caller discipline | None)."""
     desc = case.desc
     comp = desc["component"]
     ways = desc["ways"]
+    sfx = _sfx(desc)
     res = []
-    if comp == "TaggedLatencyMeasurer":
-        started: dict[int, int] = {}
-        for k, (op, o) in enumerate(zip(case.ops, out[1:])):
-            f, g = _fields(op), _fields(o)
-            a, st = _opt_list(f["a"]), _opt_list(f["o"])
-            da, do = _opt_list(g["a"]), _opt_list(g["o"])
-            lats = []
-            for w in range(ways):
-                if do[w]:
-                    if st[w] not in started:
-                        return None, f"cycle {k}: (hypothesis) stop of slot {st[w]} which was never started"
-                    lats.append(k - started[st[w]])
-            for w in range(ways):
-                if da[w]:
-                    started[a[w]] = k
-            res.append(lats)
-        return res, None
+    started: dict[int, int] = {}
     queues = [[] for _ in range(ways)]
     msto = desc.get("msto", 1)
+    fail = None
     for k, (op, o) in enumerate(zip(case.ops, out[1:])):
         f, g = _fields(op), _fields(o)
-        a, st = _opt_list(f["a"]), _opt_list(f["o"])
-        da, do = _opt_list(g["a"]), _opt_list(g["o"])
+        att_a = [_opt_list(f["a" + x]) for x in sfx]
+        att_o = [_opt_list(f["o" + x]) for x in sfx]
+        don_a = [_opt_list(g["a" + x]) for x in sfx]
+        don_o = [_opt_list(g["o" + x]) for x in sfx]
+        for att, don, what in ((att_a, don_a, "start"), (att_o, don_o, "stop")):
+            for w in range(ways):
+                ex = [c for c in range(len(sfx)) if don[c][w]]
+                if any(att[c][w] is None for c in ex):
+                    return None, f"cycle {k}: {what}[{w}] executed without being attempted"
+                if len(ex) > 1 and fail is None and k + 1 < len(case.ops):
+                    fail = f"cycle {k}: both callers of {what}[{w}] executed in the same cycle"
         lats = []
         for w in range(ways):
-            q = queues[w]
-            if do[w]:
-                n = min(st[w], len(q), msto)  # events actually finished by this stop
-                lats.extend(k - t for t in q[:n])
-                del q[:n]
+            for c in range(len(sfx)):
+                if not don_o[c][w]:
+                    continue
+                if comp == "TaggedLatencyMeasurer":
+                    if att_o[c][w] not in started:
+                        return None, None  # (hypothesis) stop of a slot which was never started
+                    lats.append(k - started[att_o[c][w]])
+                else:
+                    q = queues[w]
+                    n = min(att_o[c][w], len(q), msto)  # events actually finished by this stop
+                    lats.extend(k - t for t in q[:n])
+                    del q[:n]
         for w in range(ways):
-            if da[w]:
-                queues[w].extend([k] * a[w])
+            for c in range(len(sfx)):
+                if don_a[c][w]:
+                    if comp == "TaggedLatencyMeasurer":
+                        started[att_a[c][w]] = k
+                    else:
+                        queues[w].extend([k] * att_a[c][w])
         res.append(lats)
-    return res, None
+    return res, fail
 
 
 def monitor(case: Case, out: list[str]):
@@ -194,9 +238,9 @@ def monitor(case: Case, out: list[str]):
     ml = desc["ml"]
     ew = bits_for(ml)
     nb = ew + 1
-    lats, hyp = true_latencies(case, out)
+    lats, discipline = true_latencies(case, out)
     if lats is None:
-        return None  # outside the environment hypothesis: no claim
+        return discipline  # a call executed without being attempted, or (None) outside the environment hypothesis: no claim
     samples: list[int] = []
     for k, o in enumerate(out[1:]):
         f = _fields(o)
@@ -218,7 +262,7 @@ def monitor(case: Case, out: list[str]):
         if _opt_list(f["b"]) != b:
             return f"cycle {k}: buckets={f['b']} but true latencies {samples[-10:]} (n={len(samples)}) give {b}"
         samples.extend(lats[k])
-    return None
+    return discipline  # two callers of one way of an exclusive method executed in the same cycle (checked last)
 
 
 def within(case: Case, out: list[str]) -> bool:
@@ -377,6 +421,40 @@ def gen_cases(ctx: Check):
     return claimed, unclaimed
 
 
+def two_caller_case(desc: dict, rng, n: int, p: float) -> Case:
+    """two callers per way of start and of stop, each attempting independently; (tagged) both callers of a way use the
+    same slot so that the environment hypotheses hold whichever caller the manager grants"""
+    ways = desc["ways"]
+    ops = []
+    if desc["component"] == "TaggedLatencyMeasurer":
+        started: set[int] = set()
+        for _ in range(n):
+            taken = sorted(started)
+            rng.shuffle(taken)
+            stops = [taken.pop() if taken and rng.random() < 0.7 else None for _ in range(ways)]
+            free = [x for x in range(desc["slots"]) if x not in started or x in stops]
+            rng.shuffle(free)
+            starts = [free.pop() if free and rng.random() < 0.7 else None for _ in range(ways)]
+            att = {}
+            for nm, base in (("a", starts), ("o", stops)):
+                first = [x if x is not None and rng.random() < p else None for x in base]
+                second = [x if x is not None and (rng.random() < p or first[w] is None) else None for w, x in enumerate(base)]
+                att[nm], att[nm + "2"] = first, second
+            started -= {x for x in stops if x is not None}
+            started |= {x for x in starts if x is not None}
+            ops.append(" ".join(["cyc"] + [f"{k}={_opt(v)}" for k, v in att.items()]))
+    else:
+        unit = desc["component"] == "FIFOLatencyMeasurer"
+        msta, msto = desc.get("msta", 1), desc.get("msto", 1)
+        for _ in range(n):
+            def one(mx):
+                return (1 if unit else rng.randrange(1, mx + 1)) if rng.random() < p else None
+            att = {"a": [one(msta) for _ in range(ways)], "a2": [one(msta) for _ in range(ways)],
+                   "o": [one(msto) for _ in range(ways)], "o2": [one(msto) for _ in range(ways)]}
+            ops.append(" ".join(["cyc"] + [f"{k}={_opt(v)}" for k, v in att.items()]))
+    return Case(_cfg(desc) + " callers=2", ops, desc, "two-callers")
+
+
 def more_cases(case: Case, rng):
     d = case.desc
     for _ in range(24):
@@ -436,6 +514,46 @@ def run(ctx: Check):
 
     # one driver invocation for both streams (the interpreter's start-up dominates otherwise)
     lockstep(ctx, "latency-measurers", "C32", claimed + unclaimed, impl, mon, more_cases, nt, procs=procs)
+    # ---- two callers per way of start/stop (method exclusivity): implementation + monitor only, no Lean model involved
+    #      (which competing caller the manager grants is taken from the observed done bits)
+    from ..lockstep import _shrink
+
+    mrng = ctx.rng("two-callers")
+    # WideFIFOLatencyMeasurer is left out: with two callers of start[k]/stop[k] carrying different counts pysim does not
+    # settle (the validity of WideFifo.write's arguments is computed from the caller-muxed data_in of the intermediate
+    # method `start`, and the grant of the callers depends on that validity) - e.g. wide ways=1 slots=4 msta=msto=2:
+    # "cyc a=2 a2=1 o=2 o2=-", "cyc a=- a2=2 o=1 o2=1" never returns.  That is a matter of validate_arguments (core), not C32.
+    mc = [{"component": "FIFOLatencyMeasurer", "ways": 2, "slots": 2, "ml": 31},
+          {"component": "FIFOLatencyMeasurer", "ways": 1, "slots": 3, "ml": 31},
+          {"component": "TaggedLatencyMeasurer", "ways": 2, "slots": 4, "ml": 31}]
+    import signal
+
+    def _alarm(signum, frame):
+        raise TimeoutError("pysim did not settle")
+
+    for d0 in mc:
+        d = {**d0, "callers": 2}
+        for p in ((0.7,) if ctx.quick else (0.5, 0.7, 0.95)):
+            case = two_caller_case(d, mrng, ctx.pick(80, 400), p)
+            old = signal.signal(signal.SIGALRM, _alarm)
+            signal.alarm(ctx.pick(20, 120))
+            try:
+                out = impl(case)
+            except TimeoutError:
+                ctx.count("two_caller_sim_timeouts")
+                ctx.note(f"two-caller simulation did not settle within the time limit: {case.cfg} (no claim)")
+                _sims.clear()
+                break
+            finally:
+                signal.alarm(0)
+                signal.signal(signal.SIGALRM, old)
+            ctx.case(case.key(), nontrivial=within(case, out), n=len(case.ops))
+            ctx.count("two_caller_cases")
+            fail = monitor(case, out)
+            if fail:
+                small = _shrink(case, impl, monitor)
+                ctx.violation(monitor(small, impl(small)) or fail,
+                              {"cfg": small.cfg, "ops": small.ops, "desc": small.desc, "impl_observations": impl(small)})
     ctx.count("claimed_cases", len(claimed))
     ctx.count("unclaimed_cases", len(unclaimed))
     ctx.count("configs", len({c.cfg for c in claimed + unclaimed}))
